@@ -621,6 +621,6 @@ func sortedKeys(t Tree) []string {
 func init() {
 	register(&Engine{Name: "foreign", Props: []string{"C17"}, Cases: forCases, Run: forRun})
 	propMeta["C17"] = PropMeta{Level: "exploration",
-		Rule:        "per case a generated tree (depth <= 4, names with spaces, non-ASCII, '_' and '%', one 124-byte component for PAX/GNU, sizes 0..40000) is written by archive/tar in USTAR, PAX or GNU format with members named under './', '/' or 'top/' and a top-level directory entry (optionally followed by blocking-factor padding), opened through the documented composition (Initialize + NewCacheFilesystem) with record size 1, 20 or 64; every member must be listed under its directory and read back byte-identical, three spellings of up to 12 paths must agree, 5-10 entries added through the filesystem must coexist with the members, 3-6 further calls (rename of a file / of a directory, Remove, RemoveAll, rewrite - on original members and added entries alike) must each leave exactly the expected tree, all of it live and after a rebuild from the tape, and Initialize must not change the archive; plus (rooted histories) random call histories from the C02 generator (8-21 calls, unusual spellings, exotic values) against the reference model on a filesystem whose tape starts as a ustar / pax / gnu archive holding only a top-level directory named ./, /, top/, .hid/, top dir/ or a/b/ (every call outcome and the full tree compared after every call); non-trivial = at least 3 members; distinct = distinct archive bytes",
-		Assumptions: []string{"the archive is written by archive/tar; blocking-factor padding as GNU tar produces it is imitated by appending zero blocks"}}
+		Rule:        "per case a generated tree (depth <= 4, names with spaces, non-ASCII, '_' and '%', one 124-byte component for PAX/GNU, sizes 0..40000) is written by archive/tar in USTAR, PAX or GNU format with members named under './', '/', 'top/', '.hid/' or 'top dir/' and a top-level directory entry (optionally followed by blocking-factor padding); half of the gnu archives hold an old-GNU sparse member as `tar -S` writes it (not last), a third of the pax archives start with a global extended header as `git archive` writes it, a quarter hold one member twice (`tar -r` of a changed file: the later copy is the file), a quarter hold a fifo / character / block device member (has to be listed; reading it has to return); two witness archives hold a symbolic resp. hard link member (open findings), opened through the documented composition (Initialize + NewCacheFilesystem) with record size 1, 20 or 64; every member must be listed under its directory and read back byte-identical, three spellings of up to 12 paths must agree, 5-10 entries added through the filesystem must coexist with the members, 3-6 further calls (rename of a file / of a directory, Remove, RemoveAll, rewrite - on original members and added entries alike) must each leave exactly the expected tree, all of it live and after a rebuild from the tape, and Initialize must not change the archive; plus (rooted histories) random call histories from the C02 generator (8-21 calls, unusual spellings, exotic values) against the reference model on a filesystem whose tape starts as a ustar / pax / gnu archive holding only a top-level directory named ./, /, top/, .hid/, top dir/ or a/b/ (every call outcome and the full tree compared after every call); non-trivial = at least 3 members; distinct = distinct archive bytes",
+		Assumptions: []string{"the archive is written by archive/tar (sparse headers hand-patched to the old GNU layout); blocking-factor padding as GNU tar produces it is imitated by appending zero blocks"}}
 }
